@@ -74,7 +74,7 @@ OpRefines == [][ Completing =>
          [] OTHER -> FALSE ]_hvars
 \* the calls without probing
 AtomicRefines == [][ (pc = "idle" /\ pc' = "idle" /\ vcalls' # vcalls) =>
-                         (Abs!Open \/ Abs!Flush \/ Abs!Close \/ Abs!CompactAny) ]_hvars
+                         (Abs!Open \/ Abs!Flush \/ Abs!Close \/ IF lastres' = "refused" THEN Abs!CompactFail ELSE Abs!CompactAny) ]_hvars
 
 AbsClean == Abs!CleanMeansEqual
 =============================================================================
